@@ -209,7 +209,10 @@ func (m Matches) uniquify() Matches {
 OUTER:
 	for _, match := range m {
 		for _, mr := range matched {
-			if match.Offset >= mr.offset && match.Offset <= mr.offset+mr.extent {
+			// The range of a match is [offset, offset+extent): a match that begins
+			// where an earlier one ends (",bar" right after "foo" in "foo,bar")
+			// is not contained in it.
+			if match.Offset >= mr.offset && match.Offset < mr.offset+mr.extent {
 				continue OUTER
 			}
 		}
